@@ -88,6 +88,8 @@ Matrix Round(const Matrix& matrix, unsigned int digits)
 
 double Relative_Difference(double a, double b)
 {
+	if(a == b)
+		return 0.0;
 	double d   = std::fabs(a - b);
 	double max = std::max(fabs(a), fabs(b));
 	return d / max;
